@@ -1233,6 +1233,78 @@ func parseTraces(out string) []string {
 	return res
 }
 
+// tagWeights: what -tags must report for the kept samples q: per key its total, per key and value
+// the summed sample value (numeric values formatted with the key's unit as identified on the
+// unfiltered profile p0), as sorted lines.
+func tagWeights(q, p0 *profile.Profile, col int) []string {
+	units, _ := p0.NumLabelUnits()
+	tot := map[string]int64{}
+	w := map[string]int64{}
+	for _, sm := range q.Sample {
+		v := sm.Value[col]
+		for k, vals := range sm.Label {
+			for _, x := range vals {
+				w[k+"\x00"+x] += v
+				tot[k] += v
+			}
+		}
+		for k, vals := range sm.NumLabel {
+			for _, x := range vals {
+				w[k+"\x00"+measurement.ScaledLabel(x, units[k], "minimum")] += v
+				tot[k] += v
+			}
+		}
+	}
+	var out []string
+	for k, v := range tot {
+		out = append(out, fmt.Sprintf("%s: total %d", k, v))
+	}
+	for kv, v := range w {
+		i := strings.IndexByte(kv, 0)
+		out = append(out, fmt.Sprintf("%s: %q = %d", kv[:i], kv[i+1:], v))
+	}
+	sort.Strings(out)
+	return out
+}
+
+var tagsKeyRx = regexp.MustCompile(`^\s*(.*):\s+Total (\S+) of (\S+)`)
+var tagsValRx = regexp.MustCompile(`^\s*(\S+)(?: \([^)]*\))?:\s(.*)$`)
+
+// parseTags reads the output of `pprof -tags` into the same sorted lines.
+func parseTags(out string) ([]string, bool) {
+	var res []string
+	key := ""
+	for _, ln := range strings.Split(out, "\n") {
+		if strings.TrimSpace(ln) == "" {
+			continue
+		}
+		if m := tagsKeyRx.FindStringSubmatch(ln); m != nil {
+			key = m[1]
+			res = append(res, fmt.Sprintf("%s: total %s", key, m[2]))
+			continue
+		}
+		if m := tagsValRx.FindStringSubmatch(ln); m != nil && key != "" {
+			res = append(res, fmt.Sprintf("%s: %q = %s", key, m[2], m[1]))
+			continue
+		}
+		if key != "" {
+			return res, false
+		}
+	}
+	sort.Strings(res)
+	return res, true
+}
+
+// samplesSection: the "Samples:" part of Profile.String() / `pprof -raw`.
+func samplesSection(s string) string {
+	i := strings.Index(s, "Samples:\n")
+	j := strings.Index(s, "\nLocations\n")
+	if i < 0 || j < i {
+		return "?" + c06trunc(s)
+	}
+	return s[i:j]
+}
+
 func hasFlag(fs []string, f string) bool {
 	for _, x := range fs {
 		if x == f {
@@ -1314,6 +1386,18 @@ func c06AggEval(c *Ctx, cs c06Case, out, errs string) {
 		want = append(want, fmt.Sprintf("%d/%d", sm.Value[col], n))
 	}
 	switch cs.Out {
+	case "tags":
+		want := tagWeights(q, p, col)
+		got, ok := parseTags(out)
+		if !ok || strings.Join(got, "\n") != strings.Join(want, "\n") {
+			c.Violation("C06/agg/tags/label-weights", fmt.Sprintf("pprof -tags %v %v relative_percentages=%v reports label weights %q; the samples the rule keeps give %q", cs.Flags, cs.Opts, cs.Rel, c06trunc(strings.Join(got, "; ")), c06trunc(strings.Join(want, "; "))), cs)
+		}
+	case "raw":
+		want := samplesSection(q.String())
+		got := samplesSection(out)
+		if got != want {
+			c.Violation("C06/agg/raw/kept-samples", fmt.Sprintf("pprof -raw %v relative_percentages=%v prints samples %q; the rule keeps %q", cs.Opts, cs.Rel, c06trunc(got), c06trunc(want)), cs)
+		}
 	case "traces":
 		got := parseTraces(out)
 		if strings.Join(got, " ") != strings.Join(want, " ") {
@@ -1551,6 +1635,49 @@ func sparsifyIDs(r *Rng, p *profile.Profile) {
 	}
 }
 
+// weirdKeyPool: label keys with regexp metacharacters and other punctuation (no '=' and no ',': the
+// option syntax reserves them).
+var weirdKeyPool = []string{"grpc.method", "http.status", "alloc.size", "a-b", "a_b", "x/y", "k:v", "a+b", "a*", "(k)", "[k]", "$k", "^k", "a|b", "k?", "sp ace", "ключ", "k.", ".", "a\\b", "{k}"}
+
+// weirdKeys renames every label key of the profile (string and numeric, consistently over the
+// samples) to a key drawn from weirdKeyPool.
+func weirdKeys(r *Rng, p *profile.Profile) {
+	ren := map[string]string{}
+	used := map[string]bool{}
+	name := func(k string) string {
+		if n, ok := ren[k]; ok {
+			return n
+		}
+		for {
+			n := weirdKeyPool[r.Intn(len(weirdKeyPool))]
+			if !used[n] {
+				used[n] = true
+				ren[k] = n
+				return n
+			}
+		}
+	}
+	for _, s := range p.Sample {
+		if len(s.Label) > 0 {
+			m := map[string][]string{}
+			for _, k := range sortedKeys(s.Label) {
+				m[name(k)] = s.Label[k]
+			}
+			s.Label = m
+		}
+		if len(s.NumLabel) > 0 {
+			m, u := map[string][]int64{}, map[string][]string{}
+			for _, k := range sortedKeys(s.NumLabel) {
+				m[name(k)] = s.NumLabel[k]
+				if us, ok := s.NumUnit[k]; ok {
+					u[name(k)] = us
+				}
+			}
+			s.NumLabel, s.NumUnit = m, u
+		}
+	}
+}
+
 // genRxTargeted: an expression that matches ONLY a source file name, only a mapping (binary)
 // name, or only the name of a function that occurs as an inlined (non-outermost) frame.
 func genRxTargeted(r *Rng, p *profile.Profile) (string, string) {
@@ -1612,7 +1739,7 @@ func genRxTargeted(r *Rng, p *profile.Profile) (string, string) {
 
 // ---------- generators ----------
 
-var c06Names = []string{"sa", "sb", "fa", "fb", "ha", "hb", "main", "m.run", "lib.foo", "lib.bar(int)", "std::v<int>::p", "x"}
+var c06Names = []string{"sa", "sb", "fa", "fb", "ha", "hb", "main", "m.run", "lib.foo", "lib.bar(int)", "std::v<int>::p", "x", "operator new", "sa b", "fa "}
 var c06Files = []string{"a.go", "b.go", "lib/c.c", "s.go", ""}
 var c06Maps = []string{"/nonexistent/bin/prog", "/nonexistent/lib/libsa.so", "/nonexistent/lib/libm.so.6"}
 
@@ -1728,6 +1855,12 @@ func genRx(r *Rng, names []string) string {
 	}
 	nm := func() string { return names[r.Intn(len(names))] }
 	q := regexp.QuoteMeta
+	if r.Chance(12) {
+		// the value must be compiled exactly as given: significant leading / trailing blanks, empty
+		// alternatives (an empty alternative matches everything)
+		n := q(nm())
+		return []string{n + "|", "|" + n, n + "||" + q(nm()), " " + n, n + " ", "\t" + n, "operator ", " b", "a |"}[r.Intn(9)]
+	}
 	switch r.Intn(12) {
 	case 0:
 		return q(nm())
@@ -1967,6 +2100,15 @@ func genUnitGrid(r *Rng, forceExact bool) (*profile.Profile, string, string) {
 	} else { // filter finer: label values m, m±1; the filter bounds get the fractions
 		vals = []int64{m, m - 1, m + 1, m + 2, 0, -m}
 	}
+	qk, zk := "q", "z"
+	if r.Chance(35) { // keys with regexp metacharacters / punctuation
+		qk = weirdKeyPool[r.Intn(len(weirdKeyPool))]
+		zk = weirdKeyPool[r.Intn(len(weirdKeyPool))]
+		if zk == qk {
+			zk = "z"
+		}
+		pair += ":weird-key"
+	}
 	p := &profile.Profile{SampleType: []*profile.ValueType{{Type: "samples", Unit: "count"}}}
 	mp := &profile.Mapping{ID: 1, Start: 0x400000, Limit: 0x480000, File: "/nonexistent/bin/prog"}
 	fn := &profile.Function{ID: 1, Name: "main", SystemName: "main", Filename: "m.go"}
@@ -1974,17 +2116,17 @@ func genUnitGrid(r *Rng, forceExact bool) (*profile.Profile, string, string) {
 	p.Mapping, p.Function, p.Location = []*profile.Mapping{mp}, []*profile.Function{fn}, []*profile.Location{loc}
 	for i, v := range vals {
 		sm := &profile.Sample{Location: []*profile.Location{loc}, Value: []int64{int64(i + 1)},
-			NumLabel: map[string][]int64{"q": {v}}}
+			NumLabel: map[string][]int64{qk: {v}}}
 		if lu.label != "" {
-			sm.NumUnit = map[string][]string{"q": {lu.label}}
+			sm.NumUnit = map[string][]string{qk: {lu.label}}
 		}
 		if r.Chance(25) {
-			sm.NumLabel["z"] = []int64{toLabel(m)}
+			sm.NumLabel[zk] = []int64{toLabel(m)}
 		}
 		if r.Chance(15) { // a second value under the same key
-			sm.NumLabel["q"] = append(sm.NumLabel["q"], vals[r.Intn(len(vals))])
+			sm.NumLabel[qk] = append(sm.NumLabel[qk], vals[r.Intn(len(vals))])
 			if lu.label != "" {
-				sm.NumUnit["q"] = append(sm.NumUnit["q"], lu.label)
+				sm.NumUnit[qk] = append(sm.NumUnit[qk], lu.label)
 			}
 		}
 		p.Sample = append(p.Sample, sm)
@@ -2042,11 +2184,13 @@ func genUnitGrid(r *Rng, forceExact bool) (*profile.Profile, string, string) {
 		expr, form = lit(a, fu.filter)+":"+lit(b, u2), "a:b"
 	}
 	switch r.Intn(4) {
-	case 0:
-		expr = "q=" + expr
+	case 0, 3:
+		if qk != "q" || r.Bool() {
+			expr = qk + "=" + expr
+		}
 	case 1:
 		if r.Chance(30) {
-			expr = "z=" + expr
+			expr = zk + "=" + expr
 		}
 	}
 	return p, expr, "grid:" + pair + ":" + form
@@ -2227,7 +2371,7 @@ func runC06Case(c *Ctx, cs c06Case) {
 }
 
 func runC06(c *Ctx) {
-	c.Res.Rule = "profiles with inlined multi-line locations, shared locations, unsymbolized locations, empty stacks, mapping files and labels with units; expressions from a grammar (literal, anchored, alternation, class, substring, match-all, match-none, case-insensitive; numeric ranges a, a:, :b, a:b with signs and units, key=…); streams: name filters (all 16 on/off combinations of focus/ignore/hide/show), focus=R/ignore=R partition, show_from (main stream = inputs satisfying the hypothesis of showFrom_spec_partial, the rest on the known-finding stream), tagshow/taghide, FilterSamplesByTag called directly with arbitrary predicates on the label sets (presence, value, range, negations / absence-style, all-values-below, number of keys, constant true/false, hash parity, nil) on profiles mixing labelled and completely unlabelled samples (kept set and the fm/im results against the documented rule), measurement.Scale, `pprof -proto` with 1–4 of the 9 filter options (plus a unit grid for tagfocus/tagignore: range forms a, a:, :a, a:b × unit pairs same/finer/coarser/none/unknown/cross-family × label values at, just below, just above and halfway between multiples of the coarser unit), `pprof -top` with and without -relative_percentages (which total the header reports), and `pprof -top`/`-traces` through every granularity (default, functions, filefunctions, files, lines, addresses) and -noinlines with focus/ignore/hide/show expressions that match only a source file name, only a mapping name or only an inlined frame (kept samples and totals must be the rule's on the un-aggregated profile), and `pprof -proto`/-traces/-top with -tagroot/-tagleaf (one or several keys, string and numeric labels, absent keys) × every filter on profiles with sparse / huge location and function ids (the rule is evaluated on the stacks extended by the label pseudo frames; an error exit is a violation). non-trivial = some expression of the case matches at least one but not all locations in use (name/show_from/cli), some but not all label keys (tags), or the predicate selects some but not all samples (bytag); distinct by options + canonical profile"
+	c.Res.Rule = "profiles with inlined multi-line locations, shared locations, unsymbolized locations, empty stacks, mapping files and labels with units; expressions from a grammar (literal, anchored, alternation, class, substring, match-all, match-none, case-insensitive; numeric ranges a, a:, :b, a:b with signs and units, key=…); streams: name filters (all 16 on/off combinations of focus/ignore/hide/show), focus=R/ignore=R partition, show_from (main stream = inputs satisfying the hypothesis of showFrom_spec_partial, the rest on the known-finding stream), tagshow/taghide, FilterSamplesByTag called directly with arbitrary predicates on the label sets (presence, value, range, negations / absence-style, all-values-below, number of keys, constant true/false, hash parity, nil) on profiles mixing labelled and completely unlabelled samples (kept set and the fm/im results against the documented rule), measurement.Scale, `pprof -proto` with 1–4 of the 9 filter options (plus a unit grid for tagfocus/tagignore: range forms a, a:, :a, a:b × unit pairs same/finer/coarser/none/unknown/cross-family × label values at, just below, just above and halfway between multiples of the coarser unit), `pprof -top` with and without -relative_percentages (which total the header reports), and `pprof -top`/`-traces`/`-tags` (label weights)/`-raw` through every granularity (default, functions, filefunctions, files, lines, addresses) and -noinlines with focus/ignore/hide/show expressions that match only a source file name, only a mapping name or only an inlined frame (kept samples and totals must be the rule's on the un-aggregated profile), and `pprof -proto`/-traces/-top with -tagroot/-tagleaf (one or several keys, string and numeric labels, absent keys) × every filter on profiles with sparse / huge location and function ids (the rule is evaluated on the stacks extended by the label pseudo frames; an error exit is a violation). non-trivial = some expression of the case matches at least one but not all locations in use (name/show_from/cli), some but not all label keys (tags), or the predicate selects some but not all samples (bytag); distinct by options + canonical profile"
 	if c.Replay != "" {
 		var cs c06Case
 		if err := c.LoadReplay(&cs); err != nil {
@@ -2422,6 +2566,10 @@ func runC06(c *Ctx) {
 		for k := 0; boundary && k < 20 && len(keyCands(p)) == 0; k++ {
 			p = genC06Profile(r, true)
 		}
+		if r.Chance(35) {
+			weirdKeys(r, p) // keyed tag filters on keys with metacharacters / punctuation
+			c.Res.Hit("cli:label-keys-with-metacharacters")
+		}
 		// what pprof reads back is what the case is about
 		var buf bytes.Buffer
 		p.Write(&buf)
@@ -2549,7 +2697,7 @@ func runC06(c *Ctx) {
 		c06TopEval(c, cs, tgot[i][0], tgot[i][1])
 	}
 	// ---- aggregating outputs (-top / -traces, every granularity, -noinlines), both percentage modes
-	nAgg := 260 * c.Scale
+	nAgg := 330 * c.Scale
 	acases := make([]c06Case, nAgg)
 	aprofs := make([]*profile.Profile, nAgg)
 	grans := [][]string{nil, nil, {"-functions"}, {"-filefunctions"}, {"-files"}, {"-lines"}, {"-addresses"}}
@@ -2568,6 +2716,9 @@ func runC06(c *Ctx) {
 		}
 		opts := map[string]string{}
 		k := []string{"focus", "ignore", "hide", "show", "focus", "ignore"}[i%6]
+		if i%6 == 2 || i%6 == 5 { // -tags / -raw: the options that only remove frames must still remove samples
+			k = []string{"hide", "show", "show_from", "show", "focus", "ignore"}[(i/6)%6]
+		}
 		e, kind := genRxTargeted(r, p)
 		opts[k] = e
 		if r.Chance(25) {
@@ -2580,7 +2731,7 @@ func runC06(c *Ctx) {
 		if r.Chance(40) {
 			flags = append(flags, "-noinlines")
 		}
-		acases[i] = c06Case{Kind: "agg", Stream: "main", Profile: Canon(p), Opts: opts, Rel: i%4 >= 2, Out: []string{"traces", "top"}[i%2], Flags: flags}
+		acases[i] = c06Case{Kind: "agg", Stream: "main", Profile: Canon(p), Opts: opts, Rel: i%4 >= 2, Out: []string{"traces", "top", "tags", "top", "traces", "raw"}[i%6], Flags: flags}
 		if i%3 == 0 { // label pseudo frames added before the filters, seen through an aggregating output
 			ks := keyCands(p)
 			if len(ks) > 0 {
